@@ -315,4 +315,22 @@ example : ((isaRun syncCp.arch syncCp.prog (entryEnv syncSec.lines anyEnv syncEn
     [vm.pc] ++ vm.regs ++ vm.outputs ++ vm.outValid.map Bool.toNat ++ vm.inRecv.map Bool.toNat ++ vm.deferred) =
     some [1, 8, 1, 8, 0, 0] := by decide
 
+/-- line-level metadata: in a section whose mode is `async` (from the global setting) a `mov o0, r0` that carries
+    `iomode:sync` is the blocking `r2owa`, the `mov r0, i0` next to it stays the non-blocking `i2r`; a line's
+    own mode also decides where no other mode is given.  `assemble_correct` covers such sources as they are
+    (`matchLine` and the reference interpreter's `ioKind` read the same `lineMode`). -/
+def demoLineMode : Source :=
+  { rsize := some 8, iomode := some .async,
+    sections := [{ name := "prog", lines :=
+      [ { op := "entry", args := [.sym "go"] },
+        { labels := ["go"], op := "mov", args := [.reg 0, .inp 0] },
+        { op := "mov", args := [.out 0, .reg 0], iomode := some .sync },
+        { op := "j", args := [.sym "go"] } ] }],
+    cps := [{ name := "cpu", romcode := "prog" }] }
+
+example : (match assemble demoLineMode true with | .ok bm => bm.cps.map (·.arch.ops) | .error _ => []) = [["i2r", "j", "r2owa"]] := by decide
+example : matchLine none { op := "mov", args := [.reg 1, .inp 0], iomode := some .sync } = some ("i2rw", [.reg 1, .inp 0]) := by decide
+example : matchLine (some .sync) { op := "mov", args := [.out 0, .reg 1], iomode := some .async } = some ("r2o", [.reg 1, .out 0]) := by decide
+example : matchLine none { op := "mov", args := [.out 0, .reg 1] } = none := by decide
+
 end BMV.Props.C05
